@@ -33,6 +33,8 @@ THEOREMS = [
     "Mpc.C07_index",
     "Mpc.C07_hamming",
     "Mpc.C07_arrayMult",
+    "Mpc.C07_karatsuba",
+    "Mpc.C07_mul_yao",
     "Mpc.C07_udiv",
     "Mpc.C07_umod",
     "Mpc.C07_idiv_equal_width",
